@@ -58,11 +58,15 @@ def main() -> int:
         except vlib.BuildError as ex:
             return pid, f"FAILED {ex.what}: {ex.output[-800:]}"
 
-    with cf.ThreadPoolExecutor(max_workers=4) as ex:
-        for pid, res in ex.map(build, harness_jobs):
-            print(f"[setup] harness for {pid}: {res}")
-            if res.startswith("FAILED"):
-                rc = 1
+    # sequential: each build is parallel inside, and several properties share one harness binary
+    for job in harness_jobs:
+        try:
+            pid, res = build(job)
+        except Exception as ex:  # a plugin's own build code failed
+            pid, res = job[0], f"FAILED {type(ex).__name__}: {ex}"
+        print(f"[setup] harness for {pid}: {res}", flush=True)
+        if res.startswith("FAILED"):
+            rc = 1
     return rc
 
 
